@@ -36,7 +36,7 @@ def renderOut : Out → String
   | .addp r => joinWith " " ((sortBy (·.1) r).map (fun e => s!"{e.1}:{e.2}"))
   | .prod c b l => s!"{c} {b} {l}"
   | .ok => "ok"
-  | .fetch e sid ps => (s!"{e} {sid} " ++ joinWith " " ((sortBy (·.p) ps).map renderPResp)).trimAscii.toString
+  | .fetch el e sid ps => (s!"{el} {e} {sid} " ++ joinWith " " ((sortBy (·.p) ps).map renderPResp)).trimAscii.toString
 
 def renderBounds (s : State) : String :=
   joinWith " " (s.parts.map (fun pd => s!"{pd.logStart}/{pd.lso}/{pd.hwm}"))
@@ -101,7 +101,10 @@ def parseOp (ts : List String) : Option Op :=
   | ["sleep", ms] => do some (.sleep (← ms.toInt?))
   | ["fetch", c, iso, mb, sid, se, ps, fg] =>
     do some (.fetch ⟨c == "n", iso == "1", ← mb.toInt?, ← sid.toInt?, ← se.toInt?, ← parseFReqs ps,
-                     ← allSome ((parseList fg ',').map parseNat?)⟩ [])
+                     ← allSome ((parseList fg ',').map parseNat?), 0, 0⟩ [])
+  | ["fetch", c, iso, mb, sid, se, ps, fg, minb, wait] =>
+    do some (.fetch ⟨c == "n", iso == "1", ← mb.toInt?, ← sid.toInt?, ← se.toInt?, ← parseFReqs ps,
+                     ← allSome ((parseList fg ',').map parseNat?), ← minb.toInt?, ← wait.toInt?⟩ [])
   | _ => none
 
 def parseOut (op : Op) (ts : List String) : Option Out :=
@@ -111,7 +114,7 @@ def parseOut (op : Op) (ts : List String) : Option Out :=
       | [p, c] => match p.toNat?, c.toInt? with | some p, some c => some (p, c) | _, _ => none
       | _ => none))).map Out.addp
   | .prod .., [c, b, l] => do some (.prod (← c.toInt?) (← b.toInt?) (← l.toInt?))
-  | .fetch .., e :: sid :: ps => do some (.fetch (← e.toInt?) (← sid.toInt?) (← allSome (ps.map parsePResp)))
+  | .fetch .., el :: e :: sid :: ps => do some (.fetch (← el.toInt?) (← e.toInt?) (← sid.toInt?) (← allSome (ps.map parsePResp)))
   | .initx .., [c, v] => do some (.codeVal (← c.toInt?) (← v.toInt?))
   | .initr .., [c, v] => do some (.codeVal (← c.toInt?) (← v.toInt?))
   | .endt .., [c, v] => do some (.codeVal (← c.toInt?) (← v.toInt?))
